@@ -6,6 +6,7 @@ import (
 	"crypto/rand"
 	"crypto/rsa"
 	"crypto/x509"
+	"encoding/binary"
 	"fmt"
 	"sync"
 	"time"
@@ -361,9 +362,153 @@ func runPeer(r row, final bool) error {
 	case !bytes.Equal(delivered, payload(L, salt)):
 		violation(c, class, "reference-chunks-delivered-differently", fmt.Sprintf("body %d: delivered payload differs at %d", r.N, firstDiff(delivered, payload(L, salt))))
 	default:
-		vfgo.OK(c, class, map[string]any{"recs": recs, "chunks": len(parts)})
+		// ---- renewal: two valid tokens. A conforming server may keep using the previous token until it
+		// has seen the new one in use (Part 4 5.5.2); the client must accept chunks under either.
+		if msg := renewPhase(r, p, next, ap, sp, ck, sk, polURI, kc, ks, &recs, final); msg != "" {
+			if msg[0] == '!' {
+				return fmt.Errorf("%s", msg[1:])
+			}
+			return nil // violation already reported
+		}
+		vfgo.OK(c, class, map[string]any{"recs": recs, "chunks": len(parts), "renewed": true})
 	}
 	return nil
+}
+
+// renewPhase runs on an open refserver pair (channel 4711, token 9). Returns "" on success, "!text" for a
+// machinery problem, anything else after a violation has been reported.
+func renewPhase(r row, p *chanpair.Pair, next func(time.Duration) []byte, ap refcodec.AsymParams, sp refcodec.SymParams,
+	ck, sk *keys.Pair, polURI string, kcOld, ksOld refcodec.Keys, recs *[]map[string]any, final bool) string {
+	c := id(r, "refserver-renew", "refcodec")
+	class := fmt.Sprintf("renew/%s/%s/ck=%s/sk=%s", r.Pol, r.Mode, r.CKey, r.SKey)
+	patience := 15 * time.Second
+	if final {
+		patience = 40 * time.Second
+	}
+	renewErr := make(chan error, 1)
+	go func() {
+		ctx, cancel := context.WithTimeout(context.Background(), patience+5*time.Second)
+		defer cancel()
+		renewErr <- p.Client.Renew(ctx)
+	}()
+	f := next(patience)
+	if f == nil || string(f[:3]) != "OPN" {
+		return "!no OPN renew request from the gopcua client"
+	}
+	o, err := refcodec.OpenAsym(ap, sk.Key, nil, f)
+	if err != nil {
+		violation(c, class, "opn-request-not-opened-by-reference", "reference codec cannot open gopcua's OPN renew request: "+err.Error())
+		return "v"
+	}
+	*recs = append(*recs, asymRec(r.Pol, ck.Key.Size(), sk.Key.Size(), o))
+	_, svc, err := ua.DecodeService(o.Body)
+	if err != nil {
+		return "!" + err.Error()
+	}
+	oreq, ok := svc.(*ua.OpenSecureChannelRequest)
+	if !ok || oreq.RequestType != ua.SecurityTokenRequestTypeRenew {
+		violation(c, class, "renew-request-malformed", fmt.Sprintf("renew request is %T type %v", svc, oreq))
+		return "v"
+	}
+	sn := make([]byte, sp.Nonce)
+	rand.Read(sn)
+	resp := &ua.OpenSecureChannelResponse{
+		ResponseHeader: chanpair.RespHeader(oreq.RequestHeader.RequestHandle, ua.StatusOK),
+		SecurityToken:  &ua.ChannelSecurityToken{ChannelID: 4711, TokenID: 10, CreatedAt: time.Now(), RevisedLifetime: 3600000},
+		ServerNonce:    sn,
+	}
+	opn, _, err := refcodec.BuildAsym(ap, sk.Key, pubOf(o.SenderCert), refcodec.AsymChunk{ChannelID: 4711, PolicyURI: polURI,
+		SenderCert: sk.Cert, ReceiverThumb: refcodec.Thumbprint(ck.Cert), Seq: 600, ReqID: o.ReqID, Body: svcBody(resp)})
+	if err != nil {
+		return "!BuildAsym: " + err.Error()
+	}
+	if err := p.Inject("s2c", opn); err != nil {
+		return "!" + err.Error()
+	}
+	if err := <-renewErr; err != nil {
+		if !final && timeoutish(err.Error()) {
+			return "!renew: " + err.Error()
+		}
+		violation(c, class, "reference-opn-response-rejected", "gopcua client rejects the OPN renew response built by the reference codec: "+err.Error())
+		return "v"
+	}
+	kcNew, _, err := refcodec.DeriveKeys(sp, oreq.ClientNonce, sn)
+	if err != nil {
+		return "!" + err.Error()
+	}
+	// the client's next request: new token, new keys; answered under the PREVIOUS token
+	L := 64
+	salt := byte(0x3c)
+	var delivered []byte
+	derr := ""
+	done := make(chan error, 1)
+	go func() {
+		ctx, cancel := context.WithTimeout(context.Background(), patience+5*time.Second)
+		defer cancel()
+		done <- p.Client.SendRequest(ctx, chanpair.ReadReq(0, 2261), nil, func(resp ua.Response) error {
+			if q, ok := resp.(*ua.ReadResponse); ok && len(q.Results) == 1 && q.Results[0].Value != nil {
+				delivered = asBytes(q.Results[0].Value.Value())
+			} else {
+				derr = fmt.Sprintf("client channel delivered %T", resp)
+			}
+			return nil
+		})
+	}()
+	f = next(patience)
+	if f == nil {
+		return "!no request after the renewal"
+	}
+	keysUsed, tokWant := kcNew, uint32(10)
+	if len(f) >= 16 && binary.LittleEndian.Uint32(f[12:]) == 9 {
+		keysUsed, tokWant = kcOld, 9 // still the previous token: allowed
+	}
+	q, err := refcodec.OpenSym(sp, r.Mode, keysUsed, f)
+	if err != nil {
+		violation(c, class, "chunk-not-opened-by-reference", fmt.Sprintf("request after renewal (token %d): %v", tokWant, err))
+		return "v"
+	}
+	*recs = append(*recs, symRec(r, q.Observed))
+	// response secured with the keys of the PREVIOUS token (9); its layout comes from refcodec.SymLayout
+	// (same arithmetic as the row's, validated by TLC through the returned record)
+	body := svcBody(readResp(0, L, salt))
+	l := symLayoutFor(sp, r.Mode, len(body))
+	ch, err := refcodec.BuildSym(sp, r.Mode, ksOld, l, refcodec.SymChunk{MsgType: "MSG", Kind: 'F', ChannelID: 4711, TokenID: 9, Seq: 601, ReqID: q.ReqID, Body: body})
+	if err != nil {
+		return "!BuildSym: " + err.Error()
+	}
+	*recs = append(*recs, symRec(r, l))
+	if err := p.Inject("s2c", ch); err != nil {
+		return "!" + err.Error()
+	}
+	if err := <-done; err != nil {
+		if !final && timeoutish(err.Error()) {
+			return "!request after renewal: " + err.Error()
+		}
+		derr = "client channel: " + err.Error()
+	}
+	switch {
+	case derr != "":
+		violation(c, class, "previous-token-chunk-rejected", fmt.Sprintf("after a renewal (token 9 -> 10) a response secured with the still valid previous token is not accepted: %s", derr))
+		return "v"
+	case !bytes.Equal(delivered, payload(L, salt)):
+		violation(c, class, "reference-chunks-delivered-differently", "response under the previous token delivered with a different payload")
+		return "v"
+	}
+	return ""
+}
+
+// symLayoutFor computes the layout of a one-chunk symmetric message of b body bytes from the table
+// row (used only where no TLC row exists for that size; the record is validated by TLC afterwards).
+func symLayoutFor(sp refcodec.SymParams, mode string, b int) refcodec.Layout {
+	switch mode {
+	case "SignAndEncrypt":
+		x := 8 + b + 1 + sp.Sig
+		pad := (sp.PB - x%sp.PB) % sp.PB
+		return refcodec.Layout{Kind: "F", Body: b, Pad: pad, PadBytes: 1, Sig: sp.Sig, Plain: x + pad, Enc: (x + pad) / sp.PB * sp.CB, Total: 16 + (x+pad)/sp.PB*sp.CB, Encrypted: true}
+	case "Sign":
+		return refcodec.Layout{Kind: "F", Body: b, Sig: sp.Sig, Plain: 8 + b + sp.Sig, Enc: 8 + b + sp.Sig, Total: 24 + b + sp.Sig}
+	}
+	return refcodec.Layout{Kind: "F", Body: b, Plain: 8 + b, Enc: 8 + b, Total: 24 + b}
 }
 
 func asBytes(v any) []byte {
